@@ -261,33 +261,48 @@ Lemma mqtt_ignores_non_output : forall c r u, is_output u = false -> mqtt_enqueu
 Proof. intros c r u H. destruct u; try reflexivity. discriminate H. Qed.
 
 Lemma mqtt_invariant : forall c h s,
+  publishes_connected (ms_client s) h = true ->
   let s' := fold_left (mqtt_step c) h s in
   ms_published s' ++ ms_queue s' = ms_published s ++ ms_queue s ++ mqtt_spec c (ms_reg s) h.
 Proof.
-  intros c h. induction h as [|e h IH]; intros s; cbn [fold_left mqtt_spec].
+  intros c h. induction h as [|e h IH]; intros s Hc; cbn [fold_left mqtt_spec].
   - cbn. now rewrite app_nil_r.
-  - cbn zeta in IH. rewrite IH. destruct e as [u| |id info]; cbn [mqtt_step].
-    + cbn [ms_published ms_queue ms_reg]. now rewrite <- !app_assoc.
-    + destruct (ms_queue s) as [|p q] eqn:Eq.
-      * now rewrite Eq.
-      * cbn [ms_published ms_queue ms_reg]. now rewrite <- !app_assoc.
-    + reflexivity.
+  - cbn zeta in IH. destruct e as [u| |id info|up]; cbn [publishes_connected] in Hc.
+    + rewrite IH by exact Hc. cbn [mqtt_step ms_published ms_queue ms_reg]. now rewrite <- !app_assoc.
+    + apply andb_true_iff in Hc as [Hup Hc]. cbn [mqtt_step].
+      destruct (ms_queue s) as [|p q] eqn:Eq.
+      * rewrite IH by exact Hc. now rewrite Eq.
+      * rewrite Hup in *. rewrite IH by (cbn [ms_client]; exact Hc).
+        cbn [ms_published ms_queue ms_reg]. now rewrite <- !app_assoc.
+    + rewrite IH by exact Hc. reflexivity.
+    + rewrite IH by exact Hc. reflexivity.
 Qed.
 
 Lemma mqtt_once_in_order : forall c h,
+  publishes_connected false h = true ->
   ms_published (mqtt_drain (mqtt_run c h)) = mqtt_spec c [] h.
 Proof.
-  intros c h. unfold mqtt_drain, mqtt_run. cbn [ms_published].
-  pose proof (mqtt_invariant c h mqtt_init) as H. cbn zeta in H. rewrite H. reflexivity.
+  intros c h Hc. unfold mqtt_drain, mqtt_run, mqtt_run_from. cbn [ms_published].
+  pose proof (mqtt_invariant c h mqtt_init Hc) as H. cbn zeta in H. rewrite H. reflexivity.
 Qed.
 
 (* at every moment what has been published is a prefix of what the property
    demands: nothing is ever published twice, out of order, or invented *)
 Lemma mqtt_published_prefix : forall c h,
+  publishes_connected false h = true ->
   exists rest, mqtt_spec c [] h = ms_published (mqtt_run c h) ++ rest.
 Proof.
-  intros c h. exists (ms_queue (mqtt_run c h)). unfold mqtt_run.
-  pose proof (mqtt_invariant c h mqtt_init) as H. cbn zeta in H. now rewrite H.
+  intros c h Hc. exists (ms_queue (mqtt_run c h)). unfold mqtt_run, mqtt_run_from.
+  pose proof (mqtt_invariant c h mqtt_init Hc) as H. cbn zeta in H. now rewrite H.
+Qed.
+
+(* a message taken off the queue while there is no client is lost *)
+Lemma mqtt_publish_without_client_refuted :
+  exists c h, ms_published (mqtt_drain (mqtt_run c h)) <> mqtt_spec c [] h.
+Proof.
+  exists (MkCfg [109] [123; 105; 100; 125] 2),
+         [MUpdate (UOutput [MkOsm [109] [116] (RCustom 1 2) None]); MPublish; MClient true].
+  vm_compute. discriminate.
 Qed.
 
 (* topic template *)
